@@ -45,6 +45,42 @@ def name_modules(sc, max_odd):
     return mods, res
 
 
+def const_module(sc):
+    """ConstGen.tla -> one module declaring every landmark constant as virtual constants and enum values."""
+    d = sc.sub("constgen")
+    mod = os.path.join(d, "ConstGenRun.tla")
+    with open(mod, "w") as f:
+        f.write("---- MODULE ConstGenRun ----\nEXTENDS ConstGen\n====\n")
+    cfg = os.path.join(d, "ConstGenRun.cfg")
+    write_cfg(cfg, invariants=["AllInRange"])
+    res = run_tlc(mod, cfg, lib_areas=("names",), workers=1, timeout=600)
+    if not res.clean:
+        raise MachineryError("ConstGen failed:\n" + res.error_trace_tail())
+    vals = None
+    for o in res.printed_json():
+        if isinstance(o, dict) and "consts" in o:
+            vals = sorted({(-1 if c["neg"] else 1) * int("".join(str(x) for x in c["d"])) for c in o["consts"]})
+    if not vals:
+        raise MachineryError("ConstGen printed nothing")
+    lines = ['[$default byte_order: "LittleEndian"]', '[(cpp) namespace: "nm::consts"]']
+    lines.append("enum Signed:")
+    for i, v in enumerate(x for x in vals if -(2 ** 63) <= x < 2 ** 63):
+        lines.append("  SV%d = %d" % (i, v))
+    lines.append("enum Unsigned:")
+    for i, v in enumerate(x for x in vals if x >= 0):
+        lines.append("  UV%d = %d" % (i, v))
+    lines.append("struct Consts:")
+    lines.append("  0 [+1]  UInt  x")
+    for i, v in enumerate(vals):
+        lines.append("  let c%d = %d" % (i, v))
+        if v + 1 <= 2 ** 64 - 1 and not (v < 0 and v + 1 >= 0 and False):
+            if (v >= 0) or (v + 1 < 2 ** 63):
+                lines.append("  let p%d = c%d + 1" % (i, i))
+        if v - 1 >= -(2 ** 63) and (v - 1 >= 0 or v < 2 ** 63):
+            lines.append("  let m%d = c%d - 1" % (i, i))
+    return "\n".join(lines) + "\n", res, len(vals)
+
+
 def render_name_module(k, m):
     t1, t2 = m["types"]
     f1, f2 = m["fields"]
@@ -314,6 +350,11 @@ def run(chk, only=None):
                 text = render_name_module(k, m)
                 jobs.append(("names:%d:%s" % (k, "/".join(m["types"][:1] + m["fields"][:1] + m["values"])), {"nm.emb": text}, "nm.emb", "names",
                              combos if not quick else [combos_quick[k % 3]]))
+        if want("consts"):
+            text, res, nvals = const_module(sc)
+            chk.add_tlc(res, part="ConstGen")
+            chk.extra["landmark_constants"] = nvals
+            jobs.append(("consts:landmarks", {"consts.emb": text}, "consts.emb", "consts", combos))
         if want("progs"):
             progs = view_catalog.catalog()
             gen, gres = view_run.generated_programs(sc, 12 if quick else 200, chk.seed + 7, 5 if quick else 6, 3, name="c07")
